@@ -276,7 +276,10 @@ def compare(data, res, fmt, agg, ignore, ishape, what, conds, wsum_excl=None):
                 t, nan, inf = rparts(got)
                 isnan = bt(nan)
                 finite = z3.And(z3.Not(isnan), z3.Not(bt(inf)))
-                if fmt == "nan":
+                if data.cfg.get("residue"):
+                    # rounding-residue mode: only the set of missing cells is compared
+                    c = (isnan == missing) if fmt == "nan" else ((bt(flatb[idx]) == z3.Not(missing)) if fmt == "pair" else z3.BoolVal(True))
+                elif fmt == "nan":
                     c = z3.If(missing, isnan, z3.And(finite, t == value))
                 elif fmt == "pair":
                     v = bt(flatb[idx])
